@@ -1,6 +1,7 @@
 package main
 
 import (
+	"sync"
 	"encoding/json"
 	"fmt"
 	"os"
@@ -241,9 +242,29 @@ func cmdCheck(prop, tier string) int {
 			}
 			groups[g] = append(groups[g], o)
 		}
-		for _, g := range order {
+		// replays run in parallel (each builds and runs an injected test)
+		type rres struct {
+			path      string
+			confirmed bool
+		}
+		results := make([]rres, len(order))
+		var wg sync.WaitGroup
+		sem := make(chan struct{}, 8)
+		for i, g := range order {
+			i, g := i, g
+			wg.Add(1)
+			sem <- struct{}{}
+			go func() {
+				defer wg.Done()
+				defer func() { <-sem }()
+				p, c := writeReplay(s, prop, groups[g], i < 12)
+				results[i] = rres{p, c}
+			}()
+		}
+		wg.Wait()
+		for i, g := range order {
 			os_ := groups[g]
-			path, confirmed := writeReplay(s, prop, os_)
+			path, confirmed := results[i].path, results[i].confirmed
 			nviol++
 			suffix := ""
 			if !confirmed {
